@@ -7,6 +7,7 @@ import Kitoken.Theorems.C06
 import Kitoken.Theorems.C07
 import Kitoken.Theorems.C08
 import Kitoken.Theorems.C13
+import Kitoken.Theorems.C18b
 namespace Kitoken.C18
 
 open Kitoken Kitoken.Spec
@@ -66,5 +67,25 @@ theorem encode_after_parts_never_panics {S : Type} [Cost S] [Inhabited S] (tk : 
   | ok ids => rw [hr] at h; injection h with h; subst h; exact process_never_panics _ _
   | err e => rw [hr] at h; injection h with h; subst h; rfl
   | panic p => rw [hr] at he; simp [Res.isPanic] at he
+
+/-- THE PROPERTY (encode side): for every well-formed tokenizer, every valid UTF-8 text and sane
+    external libraries, `encode` returns tokens or an encode error — never a panic — and every text
+    slice it takes is on a character boundary (an off-boundary slice is a panic in the model). -/
+theorem encode_never_panics {S : Type} [Cost S] [Inhabited S] (tk : Tokenizer S) (hw : SpecialsWF tk.specials)
+    (hwf : match tk.encoder with
+           | .bpe c => BpeWF c
+           | .unigram c => EncUni.UniWF c
+           | .wordpiece _ => True)
+    (ext : Ext) (hx : ExtSane ext)
+    (hn : ∀ n ∈ tk.config.normalization, NormLiteralsValid n)
+    (hs : ∀ s ∈ tk.config.split, SplitLiteralsValid s)
+    (cs : List Char) (enc : Bool) (r : Res (List Id))
+    (h : tk.encode ext (Utf8.encodeChars cs) enc = .res r) : r.isPanic = false := by
+  cases hp : tk.parts ext (Utf8.encodeChars cs) enc with
+  | miss w => unfold Tokenizer.encode at h; rw [hp] at h; cases h
+  | res rp =>
+    obtain ⟨ps, hps, hne⟩ := parts_total tk hw ext hx hn hs cs enc rp hp
+    subst hps
+    exact encode_after_parts_never_panics tk ext _ enc ps hp (fun p hp' hi => (hne p hp' hi).1) hwf r h
 
 end Kitoken.C18
